@@ -801,6 +801,9 @@ class ModuleInliner:
             call, form = st.value, "annassign"
         elif isinstance(st, ast.Return) and isinstance(st.value, ast.Call):
             call, form = st.value, "return"
+        elif isinstance(st, ast.Raise) and isinstance(st.exc, ast.Call) and st.cause is None:
+            # `raise helper(...)`: the helper chooses the exception; each `return V` of the helper is `raise V` here
+            call, form = st.exc, "raise"
         # x = list(gen_helper(...)): the generator is drained on the spot -> x = []; body with `yield e` -> x.append(e)
         if form == "assign" and isinstance(st.targets[0], ast.Name) and isinstance(call.func, ast.Name) and call.func.id == "list" and len(call.args) == 1 \
                 and not call.keywords and isinstance(call.args[0], ast.Call):
@@ -835,6 +838,15 @@ class ModuleInliner:
                     return [ast.copy_location(ast.Pass(), r)]
                 conv, _ = self._conv(body, assign)
                 new = pre + [init] + conv
+            elif form == "raise":
+                if not _terminates(body):
+                    raise Bail("helper of a raise can fall off its end")
+
+                def assign(r):
+                    v = r.value if r.value is not None else ast.copy_location(ast.Constant(value=None), r)
+                    return [ast.copy_location(ast.Raise(exc=v, cause=None), r)]
+                conv, _ = self._conv(body, assign)
+                new = pre + conv
             elif form == "return":
                 if not _terminates(body):
                     body.append(ast.copy_location(ast.Return(value=ast.copy_location(ast.Constant(value=None), st)), st))
